@@ -42,6 +42,7 @@ type stepEval struct {
 	Union     []span
 	LastUnset bool // last configured group of the last match did not participate
 	Maybe     bool // the value seen by this step is not determined: it may or may not apply
+	DoIfOff   bool // the mask's do_if does not hold for the event: the mask must not touch it
 }
 
 type leafEval struct {
@@ -69,6 +70,7 @@ type eventExpect struct {
 	// an overlapping selection without exact expectation on the same leaf
 	AppliedMax      []int
 	ApplicationsMax int
+	Use             []bool // per mask: do_if holds for this event (nil: no mask has a do_if)
 }
 
 type compiledMask struct {
@@ -448,7 +450,31 @@ func classifyShape(groups []int, idx [][]int) (walk []span, shape string, lastUn
 	return walk, shape, lastUnset
 }
 
-func (m *model) evalLeaf(path []string, kind byte, orig string, v variant) *leafEval {
+// doIfHolds: the documented meaning of the one do_if form the harness uses.
+func doIfHolds(d *doIfCfg, ev *jnode) bool {
+	if d == nil {
+		return true
+	}
+	if ev == nil || ev.Kind != kObj {
+		return false
+	}
+	for i, k := range ev.Keys {
+		if k == d.Field {
+			if ev.Vals[i].Kind != kStr {
+				return false
+			}
+			for _, v := range d.Values {
+				if v == ev.Vals[i].Text {
+					return true
+				}
+			}
+			return false
+		}
+	}
+	return false
+}
+
+func (m *model) evalLeaf(path []string, kind byte, orig string, v variant, use []bool) *leafEval {
 	le := &leafEval{Path: path, Kind: kind, Orig: orig, Final: orig}
 	if orig == "" && v.SkipEmpty {
 		return le
@@ -458,6 +484,11 @@ func (m *model) evalLeaf(path []string, kind byte, orig string, v variant) *leaf
 	for i := range m.masks {
 		cm := &m.masks[i]
 		st := stepEval{Mask: i, In: run, Out: run, Exact: true}
+		if use != nil && !use[i] { // the mask's do_if does not hold for this event
+			st.DoIfOff = true
+			le.Steps = append(le.Steps, st)
+			continue
+		}
 		st.Selected = m.selected(i, path)
 		if !st.Selected {
 			le.Steps = append(le.Steps, st)
@@ -548,8 +579,21 @@ func (m *model) expect(in *jnode, v variant) *eventExpect {
 	ex := &eventExpect{Tree: in.clone(), NumOrStr: map[*jnode]bool{}, Wild: map[*jnode]*leafEval{}, LeafOf: map[*jnode]*leafEval{}, AppliedCount: make([]int, len(m.masks)), AppliedMax: make([]int, len(m.masks))}
 	var leaves []leaf
 	collectLeaves(ex.Tree, nil, &leaves)
+	var use []bool
+	for i := range m.masks {
+		if m.masks[i].cfg.DoIf != nil {
+			if use == nil {
+				use = make([]bool, len(m.masks))
+				for k := range use {
+					use[k] = true
+				}
+			}
+			use[i] = doIfHolds(m.masks[i].cfg.DoIf, in) // decided on the event as it arrives, before any mask ran
+		}
+	}
+	ex.Use = use
 	for _, lf := range leaves {
-		le := m.evalLeaf(lf.Path, lf.Node.Kind, lf.Node.Text, v)
+		le := m.evalLeaf(lf.Path, lf.Node.Kind, lf.Node.Text, v, use)
 		ex.Leaves = append(ex.Leaves, le)
 		ex.LeafOf[lf.Node] = le
 		for _, st := range le.Steps {
